@@ -69,27 +69,39 @@ Proof.
   - apply (P1 r2 I2 A2 E2 H R2).
 Qed.
 
+Lemma enf_events_shape supplied crs :
+  flat_map enf_events (map (fun cr : ctx * rule => (snd cr, fst cr, auth_of (snd cr) supplied)) crs)
+  = concat (map (fun cr => enforce_calls supplied (fst cr) (snd cr)) crs).
+Proof.
+  induction crs as [|[c r] rest IH]; [reflexivity|]. cbn [map flat_map concat fst snd]. rewrite IH. reflexivity.
+Qed.
+
+Lemma validated_shape O a now supplied cs vs :
+  wf a -> Forall2 (validated O a now supplied) cs vs ->
+  Forall2 (decides O a now supplied) cs (map (fun v => fst (fst v)) vs) /\
+  vs = map (fun cr : ctx * rule => (snd cr, fst cr, auth_of (snd cr) supplied)) (combine cs (map (fun v => fst (fst v)) vs)).
+Proof.
+  intros W Hf. induction Hf as [|c v cs0 vs0 Hv Hf IH]; [split; [constructor|reflexivity]|].
+  destruct IH as [I1 I2]. destruct v as [[r c'] au].
+  destruct (validated_props _ _ _ _ _ _ _ _ W Hv) as [-> [-> [H1 [H2 [H3 [H4 H5]]]]]].
+  cbn [map fst snd combine]. split.
+  - constructor; [|exact I1]. repeat (split; [assumption|]).
+    intros r' Hr' Ha' He' Hb Hreq. apply rstatus_sat in Hreq. rewrite (H5 r' Hr' Ha' He' Hb) in Hreq. discriminate.
+  - rewrite <- I2. reflexivity.
+Qed.
+
 Theorem precedence_reachable cfg calls O now auths sigs cs log :
   let a := s_acct (run cfg init calls) in
   do_check_auth O a now auths sigs cs = Ok log ->
   exists rs, Forall2 (decides O a now (map fst sigs)) cs rs /\
              filter is_enf log = concat (map (fun cr => enforce_calls (map fst sigs) (fst cr) (snd cr)) (combine cs rs)) /\
-             forall cr p, In cr (combine cs rs) -> In p (r_policies (snd cr)) ->
-               o_enforce O p (fst cr) (filter (fun s => mem_s s (map fst sigs)) (r_signers (snd cr))) (snd cr) = true.
+             accepted_seq O [] (concat (map (fun cr => enforce_calls (map fst sigs) (fst cr) (snd cr)) (combine cs rs))) = true.
 Proof.
   intros a H. pose proof (reachable_wf cfg calls) as W. fold a in W.
-  destruct (do_check_auth_ok _ _ _ _ _ _ _ H) as [_ [vs [Hf [He Hl]]]]. rewrite Hl. clear H Hl.
-  exists (map (fun v => fst (fst v)) vs).
-  induction Hf as [|c v cs0 vs0 Hv Hf IH]; [split; [constructor|split; [reflexivity|intros cr p []]]|].
-  cbn [forallb] in He. apply andb_prop in He. destruct He as [He1 He2].
-  destruct (IH He2) as [I1 [I2 I3]]. destruct v as [[r c'] au].
-  destruct (validated_props _ _ _ _ _ _ _ _ W Hv) as [-> [-> [H1 [H2 [H3 [H4 H5]]]]]].
-  cbn [map fst snd combine concat flat_map]. split; [|split].
-  - constructor; [|exact I1]. repeat (split; [assumption|]).
-    intros r' Hr' Ha' He' Hb Hreq. apply rstatus_sat in Hreq. rewrite (H5 r' Hr' Ha' He' Hb) in Hreq. discriminate.
-  - rewrite I2. reflexivity.
-  - intros cr p [<-|Hcr] Hp; [|auto]. cbn [fst snd] in *. unfold enf_accepted in He1.
-    rewrite forallb_forall in He1. apply He1. exact Hp.
+  destruct (do_check_auth_ok _ _ _ _ _ _ _ H) as [_ [vs [Hf [He Hl]]]].
+  destruct (validated_shape _ _ _ _ _ _ W Hf) as [Hd Hs].
+  exists (map (fun v => fst (fst v)) vs). split; [exact Hd|].
+  rewrite <- enf_events_shape, <- Hs. split; assumption.
 Qed.
 
 (* nothing but verify / can_enforce / enforce calls happens during a check *)
@@ -143,7 +155,7 @@ Proof.
   unfold do_check_auth. intros H.
   destruct (authenticate O auths sigs) as [lv|] eqn:Ea; [|discriminate]. cbn [bind] in H.
   destruct (validate_all O a now cs (map fst sigs)) as [[vs lc]|] eqn:Ev; [|discriminate]. cbn [bind] in H.
-  rewrite enforce_all_spec in H. destruct (forallb (enf_accepted O) vs); [|discriminate]. cbn in H. inversion H; subst.
+  rewrite enforce_all_spec in H. destruct (accepted_seq O [] (flat_map enf_events vs)); [|discriminate]. cbn in H. inversion H; subst.
   rewrite !forallb_app, (authenticate_events _ _ _ _ Ea), (validate_all_events _ _ _ _ _ _ _ Ev). cbn [andb].
   clear. induction vs as [|[[r c] au] rest IH]; [reflexivity|]. cbn [flat_map]. rewrite forallb_app, IH, andb_true_r.
   unfold enf_events. induction (r_policies r); [reflexivity|]. cbn. assumption.
@@ -172,12 +184,9 @@ Theorem complete_reachable cfg calls O now auths sigs cs :
   (forall c, In c cs -> exists r,
      In r (a_rules a) /\ applicable c r /\ not_expired now r /\ requirement O c (map fst sigs) r) ->
   exists rs, Forall2 (decides O a now (map fst sigs)) cs rs /\
-    ((forall cr p, In cr (combine cs rs) -> In p (r_policies (snd cr)) ->
-        o_enforce O p (fst cr) (filter (fun s => mem_s s (map fst sigs)) (r_signers (snd cr))) (snd cr) = true) ->
-     exists log, do_check_auth O a now auths sigs cs = Ok log) /\
-    ((exists cr p, In cr (combine cs rs) /\ In p (r_policies (snd cr)) /\
-        o_enforce O p (fst cr) (filter (fun s => mem_s s (map fst sigs)) (r_signers (snd cr))) (snd cr) = false) ->
-     do_check_auth O a now auths sigs cs = Fail).
+    let calls := concat (map (fun cr => enforce_calls (map fst sigs) (fst cr) (snd cr)) (combine cs rs)) in
+    (accepted_seq O [] calls = true -> exists log, do_check_auth O a now auths sigs cs = Ok log) /\
+    (accepted_seq O [] calls = false -> do_check_auth O a now auths sigs cs = Fail).
 Proof.
   intros a Hnt Hs Hex. pose proof (reachable_wf cfg calls) as W. fold a in W.
   set (supplied := map fst sigs) in *.
@@ -196,26 +205,13 @@ Proof.
       split; [apply get_valid_context_rules_wf; exact W|]. auto.
     - exfalso. apply rstatus_sat in Hq. rewrite (proj1 (first_decisive_none _ _ _ _) Ef r Hin) in Hq. discriminate. }
   destruct Hv as [vs Hf]. exists (map (fun v => fst (fst v)) vs).
-  assert (Hshape : vs = map (fun cr => (snd cr, fst cr, auth_of (snd cr) supplied)) (combine cs (map (fun v => fst (fst v)) vs))).
-  { clear -Hf W. induction Hf as [|c v cs0 vs0 Hv Hf IH]; [reflexivity|]. destruct v as [[r c'] au].
-    destruct (validated_props _ _ _ _ _ _ _ _ W Hv) as [-> [-> _]]. cbn [map combine fst snd]. rewrite <- IH. reflexivity. }
-  split; [|split].
-  - clear Hshape. induction Hf as [|c v cs0 vs0 Hv Hf IH]; [constructor|]. destruct v as [[r c'] au].
-    destruct (validated_props _ _ _ _ _ _ _ _ W Hv) as [_ [_ [H1 [H2 [H3 [H4 H5]]]]]].
-    cbn [map fst]. constructor; [|apply IH; intros c0 Hc0; apply Hex; right; exact Hc0].
-    repeat (split; [assumption|]).
-    intros r' Hr' Ha' He' Hb Hreq. apply rstatus_sat in Hreq. rewrite (H5 r' Hr' Ha' He' Hb) in Hreq. discriminate.
-  - intros Hall. apply (do_check_auth_complete O a now auths sigs cs vs Hs Hf).
-    rewrite Hshape. apply forallb_forall. intros v Hv. apply in_map_iff in Hv. destruct Hv as [cr [<- Hcr]].
-    unfold enf_accepted. apply forallb_forall. intros p Hp. apply (Hall cr p Hcr Hp).
-  - intros [cr [p [Hcr [Hp Hfalse]]]].
+  destruct (validated_shape _ _ _ _ _ _ W Hf) as [Hd Hshape].
+  split; [exact Hd|]. cbn zeta. rewrite <- enf_events_shape, <- Hshape. split.
+  - intros Hall. apply (do_check_auth_complete O a now auths sigs cs vs Hs Hf Hall).
+  - intros Hfalse.
     destruct (do_check_auth O a now auths sigs cs) as [log|] eqn:E; [|reflexivity]. exfalso.
     destruct (do_check_auth_ok _ _ _ _ _ _ _ E) as [_ [vs' [Hf' [He' _]]]].
-    rewrite (Forall2_validated_fun _ _ _ _ _ _ _ Hf' Hf) in He'. rewrite Hshape in He'.
-    rewrite forallb_forall in He'.
-    specialize (He' (snd cr, fst cr, auth_of (snd cr) supplied) ltac:(apply in_map_iff; exists cr; auto)).
-    unfold enf_accepted in He'. rewrite forallb_forall in He'. pose proof (He' p Hp) as Hq.
-    unfold auth_of, get_authenticated_signers in Hq. congruence.
+    rewrite (Forall2_validated_fun _ _ _ _ _ _ _ Hf' Hf) in He'. congruence.
 Qed.
 
 (* ---------- signers the rules do not name never count ---------- *)
@@ -289,7 +285,7 @@ Proof.
   destruct (authenticate_ok _ _ _ _ Hx) as [_ Hnx].
   destruct (authenticate O auths sigs) as [lv|] eqn:Ea; cbn [bind]; [|exact I].
   destruct (validate_all O a now cs (map fst sigs)) as [[vs lc]|]; cbn [bind]; [|exact I].
-  destruct (enforce_all O vs) as [le|]; cbn [bind]; [|exact I].
+  destruct (enforce_all O [] vs) as [le|]; cbn [bind]; [|exact I].
   rewrite !filter_app. rewrite Hnx, app_nil_r. reflexivity.
 Qed.
 
@@ -371,6 +367,8 @@ Proof.
     right. exists sigs, auths, op, l1. split; [reflexivity|exact E].
   - exfalso. apply H. destruct (negb (s_deployed st)); [reflexivity|]. destruct (do_check_auth _ _ _ _ _ _); reflexivity.
   - exfalso. apply H. destruct (negb (s_deployed st)); [reflexivity|]. destruct (do_check_auth _ _ _ _ _ _); reflexivity.
+  - exfalso. apply H. destruct (negb (s_deployed st)); [reflexivity|]. destruct (do_check_auth _ _ _ _ _ _); [|reflexivity].
+    destruct ((1 <=? t) && (t <=? nsig)); reflexivity.
 Qed.
 
 (* the list do_check_auth scans for a context of type t, literally: the unexpired rules of type t,
